@@ -296,6 +296,44 @@ def c12_4(ck, prog):
         r.ok('write_basic_field:restores-on-failure')
 
 
+def c12_5(ck, prog, rid='C12.5'):
+    r = ck.rule(rid, 'every header-field setter / getter call names the wire type that the header-field table '
+                '(_dbus_header_field_types, checked against the specification by C01.4) gives that field', 'TAB',
+                breaks='a field is written with a type the loader of every receiver rejects ("Header field has '
+                       'wrong type"), or read with the wrong width', floor=15)
+    HDR = 'dbus/dbus-marshal-header.c'
+    t = prog.table('_dbus_header_field_types', HDR)
+    types = {}
+    for el in t['init'].get('elems', []):
+        f = el.get('fields') or {}
+        if (f.get('code') or {}).get('v') is not None:
+            types[f['code']['v']] = (f.get('type') or {}).get('v')
+    ACC = {'_dbus_header_set_field_basic': (1, 2), '_dbus_header_get_field_basic': (1, 2),
+           'set_or_delete_string_field': (1, 2)}
+    n = 0
+    for f in lib.prod_funcs(prog):
+        for b, i, c in f.calls():
+            pos = ACC.get(c.get('callee'))
+            if pos is None or len(c['args']) <= pos[1]:
+                continue
+            fa, ta = c['args'][pos[0]], c['args'][pos[1]]
+            if not is_int(fa) or not is_int(ta):
+                continue                       # forwarded parameters: checked at the forwarding caller
+            n += 1
+            key = '%s:%s(%s)' % (f.name, c['callee'], fa.get('name') or fa['v'])
+            want = types.get(fa['v'])
+            if want is None:
+                r.violation(key, f.name, f.file, c['line'], 'header field code %s is not in the field table' % fa['v'])
+            elif want != ta['v']:
+                r.violation(key, f.name, f.file, c['line'],
+                            '%s accesses header field %s with type \'%s\'; the field table says \'%s\'' % (
+                                f.name, fa.get('name') or fa['v'], chr(ta['v']), chr(want)))
+            else:
+                r.ok(key)
+    if n < 15:
+        raise AnalysisBroken('only %d constant header-field accesses found' % n)
+
+
 def run(ck):
     ck.explanation = (
         'Static rules over dbus/dbus-marshal-header.c, dbus/dbus-marshal-recursive.c, dbus/dbus-message.c: '
@@ -311,3 +349,4 @@ def run(ck):
         c12_2(ck, prog)
         c12_3(ck, prog)
         c12_4(ck, prog)
+        c12_5(ck, prog)
